@@ -530,6 +530,29 @@ def materialise(v: Any) -> Any:
     return v
 
 
+EMPTY_IDX = -2
+
+
+def empty_value(kind: Kind) -> Val | None:
+    """the present-but-empty value: an empty string in a source is a value, not absence.  Only for kinds whose type
+    can take "" at all; whether a particular option accepts it is decided by the caller (direct instantiation with
+    the raw "" as well as with the expected value).  Expected values are written down here, not computed by gallia."""
+    n = kind.name
+    if n == "str":
+        return Val("", [[""]], [""], [""], idx=EMPTY_IDX)
+    if n == "path":
+        return Val(Path(""), [[""]], [""], [""], idx=EMPTY_IDX)
+    if n == "hexbytes":
+        return Val(b"", [[""]], [""], [""], idx=EMPTY_IDX)
+    if n == "uri":
+        return Val(_URI(kind.cls, ""), [[""]], [""], [""], idx=EMPTY_IDX)
+    if n == "ranges":
+        return Val([], [[""], []], [""], ["", []], idx=EMPTY_IDX)
+    if n == "ranges2d":
+        return Val({}, [[""]], [""], [""], idx=EMPTY_IDX)
+    return None
+
+
 def invalid_values(kind: Kind) -> dict[str, list[Any]]:
     """invalid spellings per source (absent key: every spelling of that source is valid / no spelling exists).
     file: a malformed string and a value of the wrong TOML type"""
